@@ -13,7 +13,7 @@ theorem c04_shape_matches : Generated.servicerShape = assumedShape := by decide
 /-- the RPCs of the serialisability theorem have ALL their datastore calls (but the leading study
     check) inside the study lock, so their critical sections are atomic w.r.t. each other -/
 theorem c04_shape_study_lock_rpcs :
-    [Rpc.setStudyState, .createTrial, .addTrialMeasurement, .completeTrial, .stopTrial, .updateMetadata].all
+    [Rpc.setStudyState, .createTrial, .addTrialMeasurement, .completeTrial, .stopTrial, .deleteTrial, .updateMetadata].all
       (criticalUnderStudyLock Generated.servicerShape) = true := by decide
 
 /-- every write of study data, in any RPC, happens under the study lock (no lost update on the
